@@ -20,7 +20,9 @@ import c12_util as U
 PID = "C12"
 NAMESPACE = "Simu.C12"
 THEOREMS = [
-    "volume_is_signed_tet_sum", "orient_sum_eq_volume_sum", "vol_translate", "volume_translate", "vol_rotate", "vol_reflect",
+    "volume_is_signed_tet_sum", "reference_point_is_first_node", "volume_centred_eq", "orient_sum_centred_eq",
+    "volume_is_enclosed_volume", "volume_translate_exact", "orient_sum_translate_exact",
+    "orient_sum_eq_volume_sum", "vol_translate", "volume_translate", "vol_rotate", "vol_reflect",
     "volume_rotate", "volume_reflect", "vol_scale", "volume_scale", "vol_perm_faces", "volume_perm_faces", "vol_rename_nodes",
     "vol_cyclic", "vol_reverse_all",
     "area_is_sum_of_triangle_areas", "area_translate", "area_rotate", "area_scale", "area_perm_faces", "area_rename_nodes",
@@ -29,7 +31,7 @@ THEOREMS = [
     "live_iff", "aabb_contains", "aabb_tight",
     "winding_pair_correct", "winding_table", "flip_makes_nonneg", "orient_consistent_partial", "orient_all_consistent",
     "closed_flipAll", "orient_outward", "cube_nbGood",
-    "normal_along_winding", "vol_eq_normal_flux", "normal_translate", "normal_rotate",
+    "normal_along_winding", "vol_eq_normal_flux_centred", "vol_eq_normal_flux", "normal_translate", "normal_rotate",
     "cov_follows", "longest_axis_follows_partial",
     "rotation_matrix_is_rot", "reflection_matrix_is_refl", "closed_antisym_sum_zero",
 ]
@@ -37,11 +39,14 @@ GEN = ["Geometry"]
 EPS = 2.0 ** -53
 HARNESS = os.path.join(vlib.VERIF, "harness", "h_geometry.cpp")
 
-# Offsets: the generator places cells at |offset| / size in {0, 1, 10, 100, 1000}.  The code sums un-centred
-# determinants of magnitude |offset|^3, so its volume keeps about 16 - 3*log10(offset/size) digits and the sign test of
-# the orientation repair becomes meaningless near offset/size ~ 2^(53/3) ~ 2e5 (DESIGN, C12 "Not covered").  1e3 keeps
-# >= 6 digits: the exact-arithmetic theorems and the run-time tolerance 24*eps*nf*M^3 are compatible there.
-OFFSET_RATIOS = [0.0, 0.0, 1.0, 10.0, 100.0, 1000.0]
+# Offsets: the generator places cells at |offset| / size in {0, 1, 10, ..., 1e6}.  compute_volume and the signed-volume test of
+# check_face_normal_orientation take the coordinates relative to get_volume_reference_point() (a node of the surface) before
+# forming the cubic determinants, so their rounding error is governed by the DIAMETER D of the cell, not by its distance M
+# from the origin: run-time tolerance 24*eps*nf*D^3 (it was 24*eps*nf*M^3 while the determinants were un-centred: at
+# offset/size 1e6 that tolerance exceeds the volume itself 1e3 times, and the code indeed returned garbage there —
+# finding C12:far-origin-cancellation, repaired by fixes/C12-centred-volume.diff).  The coordinates themselves carry the shape
+# to (offset/size)*eps; transformed copies are compared within that (64*eps*nf*M*L^2).
+OFFSET_RATIOS = [0.0, 0.0, 1.0, 10.0, 100.0, 1000.0, 1e4, 1e5, 1e6]
 FAR_PROBE_RATIOS = [1e4, 1e5, 1e6, 1e7]
 
 
@@ -268,11 +273,15 @@ def oracle(pts, faces_in, out, want_detail=False):
     for t in faces_in:
         for (a, b) in ((t[0], t[1]), (t[1], t[2]), (t[2], t[0])):
             L = max(L, math.sqrt(sum((pts[a][i] - pts[b][i]) ** 2 for i in range(3))))
+    # extent of the cell seen from the reference point of the volume sums (first node of the first face: the flood fill never
+    # rewinds the seed face and the final flip exchanges members 2 and 3)
+    ref = pts[faces_in[0][0]]
+    D = max(abs(pts[i][k] - ref[k]) for i in used for k in range(3))
     v6 = ex.v6(F)
     if v6 <= 0 and not fails:
         fails.append("the reported windings enclose a non-positive signed volume (%.6g): normals point inward" % float(v6 / 6))
     vol = abs(v6) / 6
-    tol_v = 24 * EPS * nf * M ** 3 + 4 * EPS * float(vol)
+    tol_v = 24 * EPS * nf * D ** 3 + 4 * EPS * float(vol)
     ev = abs(out["volume"] - float(vol))
     meas["vol_err_over_tol"] = ev / tol_v
     if not (ev <= tol_v):
@@ -312,7 +321,7 @@ def oracle(pts, faces_in, out, want_detail=False):
           max(pts[i][0] for i in used), max(pts[i][1] for i in used), max(pts[i][2] for i in used)]
     if list(out["aabb"]) != bb:
         fails.append("bounding box %r is not the tight box of the live nodes %r" % (out["aabb"], bb))
-    meas.update({"M": M, "L": L, "vol": float(vol), "area": float(A), "centroid": [float(c) for c in cx], "nf": nf})
+    meas.update({"M": M, "L": L, "D": D, "vol": float(vol), "area": float(A), "centroid": [float(c) for c in cx], "nf": nf})
     return fails, meas
 
 
@@ -485,8 +494,10 @@ def run(ctx):
     # ---- invariance residuals inside the families
     inv = invariance(V, cases, results, lines)
     far = far_probe(exe, Rng(seed).fork("far"))
-    # far from the origin the coordinates themselves still carry the shape to (offset/size)*eps, but the un-centred cubic
-    # determinants of compute_volume / check_face_normal_orientation cancel: recorded finding, identified by this input family
+    # far from the origin the coordinates themselves still carry the shape to (offset/size)*eps; a volume code that forms
+    # UN-centred cubic determinants cancels there (finding KEY_FAR, repaired by fixes/C12-centred-volume.diff: the reverse of
+    # that repair is identified by this input family).  On the repaired code the volume of the very doubles handed over is
+    # reproduced to ~1e-16 relative at every offset; the threshold is what the coordinates allow.
     for rec in far:
         ratio = rec["offset_over_size"]
         bad = rec.get("status") is not None or rec["relative_volume_error"] > 1e3 * 2.3e-16 * ratio or not rec["normals_outward"]
@@ -495,7 +506,7 @@ def run(ctx):
                 ratio, ("initialisation answers %s" % rec["status"]) if rec.get("status") is not None else
                 "reported volume off by a factor %.3g relative (coordinates carry the shape to %.1e), normals %s" % (
                     rec["relative_volume_error"], 2.3e-16 * ratio, "outward" if rec["normals_outward"] else "INWARD after initialisation")),
-                {"probe": "far_offset", "offset_over_size": ratio}, key=KEY_FAR)
+                {"probe": "far_offset", "offset_over_size": ratio, "line": rec.get("line")}, key=KEY_FAR)
     rcode, nviol = V.finish()
     cov = {
         "obligations": proof["obligations"], "discharged": proof["discharged"],
@@ -511,17 +522,18 @@ def run(ctx):
         "rule": "families = one seeded closed genus-0 base mesh (tetra/octa/cube/prism/icosphere level 0-2, stretched, bumped, bent, jittered, sizes 1e-6..1e2) x 9 transformed copies "
                 "(identity, translation, rational rotation, rigid, uniform scaling, node+face renumbering with unused slots, random per-face winding flips, mirror image, all together) "
                 "+ corpus (cubes of test_cell.cpp, inward cube with unused slot, tetra with inward seed) + 4 inputs that must be rejected; distinct = distinct request lines",
-        "offset_over_size_used": OFFSET_RATIOS, "offset_range_reason": "volume keeps ~16-3*log10(offset/size) digits; the sign test of the orientation repair is meaningless beyond ~2e5 (see far_offset_probe); 1e3 keeps >= 6 digits",
+        "offset_over_size_used": OFFSET_RATIOS, "offset_range_reason": "the volume sums are centred on a node of the surface: their rounding error is governed by the diameter of the cell at every distance from the origin (far_offset_probe goes on to 1e7); the doubles carry the shape to (offset/size)*eps",
         "families": nfam, "variant_kinds": kinds_count, "shapes": shapes_count, "status": status_count,
         "input_faces_flipped_by_generator": flips_total, "faces_total": faces_total, "faces_rewound_by_code": rewound_by_code,
         "model_vs_impl_bit_identical": bit_identical, "model_vs_impl_disagreements": disagreements,
-        "oracle_failures": oracle_fail, "worst_error_over_tolerance": worst, "invariance": inv, "far_offset_probe": far,
+        "oracle_failures": oracle_fail, "worst_error_over_tolerance": worst, "invariance": inv,
+        "far_offset_probe": [{k: v for k, v in rec.items() if k != "line"} for rec in far],
         "repo_objects_rebuilt": rebuilt, "samples": samples, "proof_wall_s": round(t_proof, 1),
     }
     vlib.write_evidence(PID, tier, "proof", cov, [
         "node ids of faces are in range and coordinates finite (the harness refuses other inputs; the C++ would index out of bounds)",
-        "offsets up to 1e3 x cell size; triangles of the generated meshes are not needle-like (normal tolerance 1e-9)",
-        "run-time tolerances: volume 24*eps*nf*M^3, area 16*eps*nf*L^2, centroid 32*eps*nf*M (M = largest |coordinate|, L = longest edge)",
+        "offsets up to 1e6 x cell size (probe: 1e7); triangles of the generated meshes are not needle-like (normal tolerance 1e-9)",
+        "run-time tolerances: volume 24*eps*nf*D^3, area 16*eps*nf*L^2, centroid 32*eps*nf*M (D = extent of the cell seen from the reference node, M = largest |coordinate|, L = longest edge)",
         "std::set<edge> orders edges by a Cantor pairing evaluated in double; the model identifies an edge with its pair of node ids (exact for ids < 2^26)",
     ], time.time() - t0, nviol)
     return rcode
@@ -586,7 +598,7 @@ def invariance(V, cases, results, lines):
             compared += 1
             nf = m["nf"]
             # tolerance: the two run-time tolerances plus the rounding of the transformed coordinates to doubles
-            tv = 24 * EPS * nf * (m["M"] ** 3 + s ** 3 * m0["M"] ** 3) + 64 * EPS * nf * m["M"] * m["L"] ** 2
+            tv = 24 * EPS * nf * (m["D"] ** 3 + s ** 3 * m0["D"] ** 3) + 64 * EPS * nf * m["M"] * m["L"] ** 2
             rv = abs(o["volume"] - s ** 3 * o0["volume"])
             worst["volume"] = max(worst["volume"], rv / tv)
             ta = 16 * EPS * nf * (m["L"] ** 2 + s * s * m0["L"] ** 2) + 64 * EPS * nf * m["M"] * m["L"]
@@ -627,7 +639,8 @@ KEY_FAR = "C12:far-origin-cancellation"
 
 
 def far_probe(exe, r):
-    """beyond the offset range of the generated families (the verdict on it is the recorded finding KEY_FAR)"""
+    """one decade beyond the offset range of the generated families, with the threshold the coordinates allow (a failure is the
+    finding KEY_FAR = un-centred volume determinants; printed as KNOWN-FINDING while that key is listed in known_findings.json)"""
     v, f = U.icosphere(1)
     out = []
     lines = []
@@ -639,12 +652,12 @@ def far_probe(exe, r):
     for (ratio, pts, fl), a in zip(lines, ans):
         o = parse_answer(a)
         if o["status"] != "ok":
-            out.append({"offset_over_size": ratio, "status": o["status"]})
+            out.append({"offset_over_size": ratio, "status": o["status"], "line": line_of(pts, fl)})
             continue
         ex = Exact(pts)
         v6 = ex.v6(o["faces"])
         out.append({"offset_over_size": ratio, "relative_volume_error": abs(o["volume"] - float(abs(v6) / 6)) / float(abs(v6) / 6),
-                    "normals_outward": bool(v6 > 0)})
+                    "normals_outward": bool(v6 > 0), "line": line_of(pts, fl)})
     return out
 
 
@@ -679,7 +692,7 @@ def replay(ctx):
         s = fi["transform"]["s"]
         print("original copy: volume=%r area=%r ; s=%r -> expected volume %r area %r" % (o0.get("volume"), o0.get("area"), s, s ** 3 * o0.get("volume", 0), s * s * o0.get("area", 0)))
         f0s, m0 = oracle(p0, f0, o0)
-        tv = 24 * EPS * meas["nf"] * (meas["M"] ** 3 + s ** 3 * m0.get("M", 0) ** 3) + 64 * EPS * meas["nf"] * meas["M"] * meas["L"] ** 2
+        tv = 24 * EPS * meas["nf"] * (meas["D"] ** 3 + s ** 3 * m0.get("D", 0) ** 3) + 64 * EPS * meas["nf"] * meas["M"] * meas["L"] ** 2
         if abs(o["volume"] - s ** 3 * o0["volume"]) > tv:
             fails.append("volume is not invariant: residual %.3g > %.3g" % (abs(o["volume"] - s ** 3 * o0["volume"]), tv))
     if fails:
